@@ -15,7 +15,7 @@ from lib import gen, lang as L, refsem, polar_driver as pd, common, snapshot
 
 PROPERTY_ID = "C05"
 RULE = (
-    "programs from profiles discrete (29%), guarded (29%), mixed (29%), edge (14%) - guards that become false, variables assigned several times per iteration, "
+    "8%: tiny lagging-copy programs (h = x placed before x is redrawn from a large or continuous support); otherwise programs from profiles discrete (29%), guarded (29%), mixed (29%), edge (14%) - guards that become false, variables assigned several times per iteration, "
     "draws inside branches; settings.type_fp_iterations in {1,2,3,10,100}; non-trivial = Polar typed at least one variable it introduced or the program "
     "has a guard or a branch; distinct by (program, fp iterations)"
 )
@@ -34,7 +34,28 @@ def budget(tier):
 
 
 @st.composite
+def lagging_copy(draw):
+    """tiny programs in which a copy reads a variable before that variable is redrawn from a large or continuous support"""
+    V, N = L.var, L.num
+    big = draw(st.sampled_from([["draw", "Normal", [N(0), N(1)]], ["draw", "Uniform", [N(0), N(2)]], ["draw", "DiscreteUniform", [N(0), N(30)]],
+                                ["draw", "DiscreteUniform", [N(0), N(2)]], ["draw", "Laplace", [N(0), N(1)]], ["choice", [N(0), N(7)], [N("1/2")]]]))
+    iv = draw(st.sampled_from(["0", "1", "2"]))
+    init = [["assign", "x", ["expr", N(iv)]], ["assign", "h", ["expr", N(iv if draw(st.integers(0, 3)) else "5")]]]
+    body = [["assign", "h", ["expr", V("x")]], ["assign", "x", big]]
+    if draw(st.integers(0, 2)) == 0:
+        init.append(["assign", "y", ["expr", N(0)]])
+        body.insert(draw(st.integers(0, 2)), ["assign", "y", ["expr", ["mul", V("h"), V("h")]]])
+    if draw(st.integers(0, 3)) == 0:
+        init.append(["assign", "a", ["expr", N(0)]])
+        body.append(["assign", "a", ["draw", "Bernoulli", [N("1/2")]]])
+    guard = ["true"] if draw(st.integers(0, 3)) else ["cmp", V("a"), "==", N(0)] if any(s[1] == "a" for s in init) else ["true"]
+    return {"types": {}, "init": init, "guard": guard, "body": body}
+
+
+@st.composite
 def cases(draw, tier="quick"):
+    if draw(st.integers(0, 11)) == 11:
+        return {"prog": draw(lagging_copy()), "fp": draw(st.sampled_from([100, 100, 1, 2, 3, 10]))}
     profile = draw(st.sampled_from(["discrete"] * 2 + ["guarded"] * 2 + ["edge", "mixed", "mixed"]))
     prog, meta = draw(gen.programs(profile, uninit_ok=False, max_body=4))
     return {"prog": prog, "fp": draw(st.sampled_from([100, 100, 1, 2, 3, 10]))}
@@ -73,9 +94,10 @@ def run_case(case, tier="quick"):
         if isinstance(t, Finite):
             vals = set()
             for x in t.values:
-                sx = sympy.nsimplify(sympy.sympify(str(x)))
-                if sx.is_Rational:
-                    vals.add(Fraction(int(sx.p), int(sx.q)))
+                try:
+                    vals.add(common.exact_fraction(sympy.sympify(str(x))))
+                except common.NotRational:
+                    pass
             types[str(v)] = (vals, t)
     nform = str(program)
     original = {str(v) for v in program.original_variables}
@@ -161,7 +183,7 @@ def run_case(case, tier="quick"):
                 if x == MARK:
                     continue
                 got = red.subs({sympy.Symbol(v): sympy.Rational(x.numerator, x.denominator)})
-                if sympy.nsimplify(got) != sympy.Rational(x.numerator, x.denominator) ** k:
+                if sympy.simplify(got - sympy.Rational(x.numerator, x.denominator) ** k) != 0:
                     return dict(base, status="violation", bucket="power_reduction", detail={"program": text, "variable": v, "power": k, "value": L.fs(x), "reduced": str(red)})
     checked = 0
     try:
@@ -196,7 +218,7 @@ def run_case(case, tier="quick"):
                             skip = True
                     if skip:
                         continue
-                    got = sympy.nsimplify(arithm.xreplace(rep))
+                    got = sympy.simplify(arithm.xreplace(rep))
                     checked += 1
                     if got != (1 if truth else 0):
                         return dict(base, status="violation", bucket="condition_indicator", nontrivial=True,
